@@ -34,7 +34,8 @@ def _spec_and_real(out, pid, tier, seed, cfgs, variants, name):
             elif v.pop("child", False):
                 # interrupts raised inside every worker by the callbacks (no signal to the parent); run in a
                 # child process under a time limit because a mishandled interrupt can block the parent for ever
-                obs, evs = E.run_real_with_sigint(cfg, f"{name}_child", timeout=40, send_signal=False), None
+                obs, evs = E.run_real_with_sigint(cfg, f"{name}_child", timeout=40, send_signal=False,
+                                                  one_pool=v.pop("onepool", False)), None
             elif v.pop("record", False):
                 obs, evs = E.record_real(cfg, f"{name}_rec", **v)
             else:
@@ -392,7 +393,8 @@ def run_c15(tier, seed):
         if cfg["intr"]["chain"] == 0 and cfg["nproc"]:
             # a real SIGINT to the whole process group; and the same interrupt raised by the callbacks in
             # every worker only
-            return [{"sigint": True}, {"child": True}]
+            # ... and the same again on the schedule in which ONE pool process runs both worker tasks one after the other
+            return [{"sigint": True}, {"child": True}, {"child": True, "onepool": True}]
         vs = [{"record": True}]
         if cfg["nproc"] == 0 and cfg["nchain"] == 2:
             vs += [{"storage": "memmap-dir"}, {"storage": "memmap-dir-reused"}]
